@@ -9,6 +9,7 @@ CONSTANTS
   MaxTip = 3
   MaxRestart = 2
   MaxPR = 1
+  Drops = TRUE
   MaxDup = 2
   MaxAdv = 0
   Calm = FALSE
